@@ -121,7 +121,12 @@ def guards(ctx, body, bb, stop_at=None):
         ow = body.blocks[t["otherwise"]]["term"]
         if set(t["vals"]) <= vals and ("otherwise" in vals or (ow and ow["k"] == "unreachable")):
             continue
-        out.append((br, vals, switch_operand_expr(ctx, body, br)))
+        e = switch_operand_expr(ctx, body, br)
+        # `!x` as the tested value: report the test on x with the arms swapped
+        while e[0] == "un" and e[1] == "Not" and t.get("op_ty", "bool") == "bool":
+            e = e[2]
+            vals = ({"otherwise"} if 0 in vals else set()) | ({0} if (vals - {0}) else set())
+        out.append((br, vals, e))
     return out
 
 
